@@ -95,6 +95,10 @@ PROPS_ALL["C17"] = dict(cache_prop(
     "C17", "Coq proof (builder/policy model: computation + case analysis) + builder sweep and differential histories against the implementation",
     "Theorems on the builder model for ALL knob combinations: policy() reports exactly max_capacity/time_to_live/time_to_idle; build panics iff ttl or tti exceeds 1000 years (constant regenerated from builder_utils.rs), new(n) = builder().max_capacity(n).build(), initial_capacity never reaches the running configuration, no weigher => weight 1, no max_capacity => nothing to evict and every new key has room. Tie: every run sweeps both real builders over capacities 0..u64::MAX, boundary durations (1000y, 1000y+1ns), weigher and initial_capacity against the extracted builder model, runs new(n) against the builder on hash-independent histories, and runs random histories with/without initial_capacity (identical traces required)."), module="p_config")
 
+PROPS_ALL["C15"] = dict(cache_prop(
+    "C15", "Coq proof (literal purity + metamorphic theorem by induction over insertions for the concurrent cache; identity / maintenance-only frame lemmas for the single-threaded cache) + metamorphic differential runs on the implementation",
+    "Theorems: for the concurrent cache model, for ALL histories h and ALL ways h' of inserting contains_key/iter calls, h' runs to the same final state with identical results for the operations of h (and conversely); for the single-threaded cache model iteration is the identity on the state and contains_key is exactly the maintenance every operation starts with (never touching sketch, timestamps or the relative recency order of what it leaves). The single-threaded metamorphic theorem outside the class PendingExcessAtObservation is in Unsync/UPurity.v (in progress); inside that class the property is genuinely violated by the unchanged code (recorded known finding D-U5, reproduced on every run). Tie: metamorphic pairs are run on the real caches (all original outputs must coincide; inserted calls must leave the internal state of the concurrent cache / of iter untouched), plus the usual lock-step of both runs against the models."), module="p_meta")
+
 # Only properties whose whole pipeline is in place are claimed in MANIFEST.json.
-CLAIMED = ["C14", "C01", "C05", "C06", "C07", "C16", "C08", "C10", "C11", "C17"]
+CLAIMED = ["C14", "C01", "C05", "C06", "C07", "C16", "C08", "C10", "C11", "C17", "C15"]
 PROPS = {k: v for k, v in PROPS_ALL.items() if k in CLAIMED}
